@@ -159,7 +159,32 @@ func (c *Ctx) encCases() []encCase {
 	rt := types.NewStruct(nil, nil)
 	add("reflected struct", func(ip *Interp) AV { return anyOf(rt, &Sym{Name: "reflectable"}) }, want{kind: "object", keys: []string{"r"}, obj: map[string]want{"r": {kind: "array", arr: []want{{kind: "int", i: 1}, {kind: "string", s: "x"}}}}})
 	add("unmarshallable", func(ip *Interp) AV { return anyOf(rt, &Sym{Name: "unmarshallable"}) }, want{kind: "anystring"})
+	// a value that carries its own JSON text (json.RawMessage): valid JSON spread over several lines, which
+	// json.Marshal compacts; null; and text that is not JSON (a marshalling error, reported as a string)
+	if raw := c.stdNamed("encoding/json", "RawMessage"); raw != nil {
+		pretty := "{\n  \"a\": [1, 2],\n\t\"b\": \"x y\"\n}"
+		wantPretty := want{kind: "object", keys: []string{"a", "b"}, obj: map[string]want{"a": {kind: "array", arr: []want{{kind: "int", i: 1}, {kind: "int", i: 2}}}, "b": {kind: "string", s: "x y"}}}
+		add("json.RawMessage over several lines", func(ip *Interp) AV { return anyOf(raw, ip.bytesAV([]byte(pretty))) }, wantPretty)
+		add("*json.RawMessage over several lines", func(ip *Interp) AV {
+			return anyOf(types.NewPointer(raw), ptrTo(ip, ip.bytesAV([]byte(pretty))))
+		}, wantPretty)
+		add("json.RawMessage nil", func(ip *Interp) AV { return anyOf(raw, NilV{}) }, want{kind: "null"})
+		add("json.RawMessage not JSON", func(ip *Interp) AV { return anyOf(raw, ip.bytesAV([]byte("{\"a\":\n"))) }, want{kind: "anystring"})
+	}
 	return cs
+}
+
+// stdNamed finds a named type of an imported package in the loaded program.
+func (c *Ctx) stdNamed(path, name string) *types.Named {
+	for _, p := range c.Prog.AllPackages() {
+		if p.Pkg.Path() == path {
+			if tn, ok := p.Pkg.Scope().Lookup(name).(*types.TypeName); ok {
+				n, _ := tn.Type().(*types.Named)
+				return n
+			}
+		}
+	}
+	return nil
 }
 
 // customArrayWant is what the user-defined ArrayValue of the evaluation (see encWorld.interp) encodes.
@@ -260,6 +285,23 @@ func (w *encWorld) interp() *Interp {
 				case "unmarshallable":
 					return nil, fmt.Errorf("json: unsupported type: chan \"int\"\n")
 				}
+			}
+		}
+		if iv, ok := v.(*IfaceV); ok {
+			t := iv.T
+			inner := iv.V
+			if pt, isPtr := types.Unalias(t).(*types.Pointer); isPtr {
+				t = pt.Elem()
+				if p, ok := inner.(*Ptr); ok {
+					inner = p.peek()
+				}
+			}
+			if isNamed(t, "encoding/json", "RawMessage") {
+				// the value's own JSON text: json.Marshal validates and compacts it (the library is the reference)
+				if _, isNil := inner.(NilV); isNil {
+					return json.Marshal(json.RawMessage(nil))
+				}
+				return json.Marshal(json.RawMessage(avBytes(inner)))
 			}
 		}
 		nv, ok := avNative(v)
